@@ -44,7 +44,10 @@ type FuncV struct {
 	free []Value
 	noop bool
 }
-type StrV struct{ b []*Term }
+type StrV struct {
+	b   []*Term
+	box Value // non-nil: opaque content (e.g. NumStr), b is empty
+}
 type ErrV struct { // model of error values
 	id    int // sentinel id
 	msg   string
@@ -144,6 +147,7 @@ type Machine struct {
 	subrun int
 	lazyInits []string
 	stubs    map[string]int
+	lenientFmt bool
 }
 
 func (m *Machine) newState() *State {
@@ -347,7 +351,7 @@ func (m *Machine) constVal(c *ssa.Const) Value {
 		for i := 0; i < len(s); i++ {
 			bs[i] = m.ctx.BV(uint64(s[i]), 8)
 		}
-		return StrV{bs}
+		return StrV{b: bs}
 	}
 	if w, _, ok := intWidth(t); ok {
 		if w == 0 {
@@ -513,10 +517,20 @@ func (m *Machine) binop(op token.Token, x, y Value, t types.Type, xt types.Type)
 		sy := y.(StrV)
 		switch op {
 		case token.ADD:
-			return StrV{append(append([]*Term(nil), sx.b...), sy.b...)}
+			if sx.box != nil || sy.box != nil {
+				panic("concatenation with an opaque numeric string")
+			}
+			return StrV{b: append(append([]*Term(nil), sx.b...), sy.b...)}
 		case token.EQL, token.NEQ:
 			var r *Term
-			if len(sx.b) != len(sy.b) {
+			if sx.box != nil || sy.box != nil {
+				nx, ok1 := sx.box.(NumStr)
+				ny, ok2 := sy.box.(NumStr)
+				if !ok1 || !ok2 {
+					panic("comparison of opaque string with plain string")
+				}
+				r = c.Cmp("=", nx.t, ny.t)
+			} else if len(sx.b) != len(sy.b) {
 				r = c.Bool(false)
 			} else {
 				r = c.Bool(true)
@@ -927,6 +941,11 @@ func (m *Machine) exec(s *State, f *Frame, in ssa.Instruction) []*State {
 		v := s.get(x.X)
 		switch vv := v.(type) {
 		case StrV:
+			if _, ok := x.Type().Underlying().(*types.Slice); ok && vv.box != nil {
+				id := s.alloc(BoxV{v: vv.box})
+				f.env[x] = SliceV{obj: id, len: 1, cap: 1}
+				return nil
+			}
 			if _, ok := x.Type().Underlying().(*types.Slice); ok {
 				arr := ArrayV{n: len(vv.b), def: Sc{c.BV(0, 8)}, elems: map[int]Value{}}
 				for i, b := range vv.b {
@@ -938,11 +957,17 @@ func (m *Machine) exec(s *State, f *Frame, in ssa.Instruction) []*State {
 			}
 		case SliceV:
 			if b, ok := x.Type().Underlying().(*types.Basic); ok && b.Info()&types.IsString != 0 {
+				if vv.obj != 0 {
+					if bx, isBox := s.heap[vv.obj].v.(BoxV); isBox {
+						f.env[x] = StrV{box: bx.v}
+						return nil
+					}
+				}
 				bs := make([]*Term, vv.len)
 				for i := 0; i < vv.len; i++ {
 					bs[i] = sc(m.sliceElem(s, vv, i))
 				}
-				f.env[x] = StrV{bs}
+				f.env[x] = StrV{b: bs}
 				return nil
 			}
 		}
@@ -1222,7 +1247,7 @@ func (m *Machine) execSlice(s *State, f *Frame, x *ssa.Slice) []*State {
 	r1 := m.enumIndex(s, f, x, hi, 0, cp, "slice bounds", func(st *State, h int) {
 		r2 := m.enumIndex(st, st.top(), x, lo, 0, h, "slice bounds", func(st2 *State, l int) {
 			if isStr {
-				st2.top().env[x] = StrV{str.b[l:h]}
+				st2.top().env[x] = StrV{b: str.b[l:h]}
 			} else {
 				st2.top().env[x] = SliceV{obj: obj, path: path, off: off + l, len: h - l, cap: cp - l}
 			}
